@@ -765,6 +765,11 @@ func runC07(c *Ctx) {
 		c.Check(fname(inv)+"#true-only-without-tokens", inv.Pos(), ok, ifelse(ok, fmt.Sprintf("all %d ways of answering true tested Token to be zero", total), fmt.Sprintf("%d of %d ways of answering true do not establish that the record's Token is zero: a record that still holds tokens is deleted at the end of the block", bad, total)))
 	}
 
+	// ------------------------------------------------------------ P17
+	c.Rule("C07.P17", "ORDER", "fees paid equal rewards credited: the one gas figure that ApplyTransaction multiplies into the block's gas rewards (and stores in the receipt and the block's gas used) is computed after refundGas has returned the refund counter to the sender — otherwise the sender pays for (used − refund) gas and the end-of-block hook credits used × price: refund × price tokens per such transaction come from nowhere (the same obligation as under C17.T5)")
+	c.Min(1)
+	reportedGasAfterRefund(c, w)
+
 	// ------------------------------------------------------------ P13
 	c.Rule("C07.P13", "ALWAYS-WITH", "a validator record that is about to be removed holds no value: a record with no token and no stake left (Validator.IsInvalid) is deleted at the end of the block with whatever it holds, and settleValidatorRewards leaves the rounding residue of an ONLINE validator in RewardsDistributable. So every take-effect handler (the functions registered in teHandlers) that can lower a validator's total tokens — a Sub on Validator.Token or UpdateDelegation with a negated amount — passes afterwards, on every path to a return, a pay-out that tests IsInvalid() and credits RewardsDistributable with AddBalance, then re-sets that field in the replacement record and stores it (in the handler or in a helper it calls). takePenalty lowers the total by a fraction and is not covered")
 	c.Min(2)
